@@ -588,7 +588,9 @@ class SArr:
         if kind == 'f' and self.nan is not None:
             g = c.fresh_fun(name + '_nan', *([I] * self.ndim + [B]))
             nanf = lambda *ix: g(*ix)
-        return SArr(self.shape_e, lambda *ix: f(*ix), kind, nan=nanf)
+        # a havoc changes the contents, not the identity of the buffer
+        # (for a view the alias relation to its base is dropped: only the identity needed for frame tracking is kept)
+        return SArr(self.shape_e, lambda *ix: f(*ix), kind, nan=nanf, buf=self.buf)
 
     def copy(self):
         return SArr(self.shape_e, self.elem, self.kind, nan=self.nan, member=self.member, incr=self.incr)
@@ -794,9 +796,9 @@ class SArr:
     # -- in-place arithmetic (numpy mutates the buffer)
     def _inplace(self, r):
         self._write_check()
-        self.elem, self.nan = r.elem, r.nan
         if r.kind != self.kind:
             raise Unsupported('in-place op changing dtype')
+        self._store(r.elem, r.nan)
         return self
 
     def __iadd__(self, o): return self._inplace(self + o)
@@ -809,8 +811,8 @@ class SArr:
             c.obl.append(Obligation('frame:no-write-to-input-buffer', list(c.pc), z3.BoolVal(False), 'frame', list(c.prefix[:c.pos]),
                                     note='an in-place write reaches a buffer that aliases an argument'))
             c.ghost['frame_writes'] = c.ghost.get('frame_writes', 0) + 1
-        if self.view_of is not None:
-            raise Unsupported('write through a view')
+        if self.view_of is not None and getattr(self, 'view_plan', None) is None:
+            raise Unsupported('write through a view that is not a basic-indexing view')
 
     # -- indexing
     def _plan(self, key, for_set=False):
@@ -933,8 +935,11 @@ class SArr:
                 C().assume(v == val)
                 return wrap(v)
             return wrap(val)
-        r = SArr(tuple(shape), lambda *ix: base(*srcix(ix)), self.kind,
-                 nan=(None if basenan is None else (lambda *ix: basenan(*srcix(ix)))), buf=self.buf, view_of=self)
+        me = self
+        # a basic-indexing view: reads go through the base array *as it is when read*, writes are pushed back to it
+        r = SArr(tuple(shape), lambda *ix: me.elem(*srcix(ix)), self.kind,
+                 nan=(None if basenan is None else (lambda *ix: (me.nan(*srcix(ix)) if me.nan is not None else z3.BoolVal(False)))), buf=self.buf, view_of=self)
+        r.view_plan = plan
         if self.incr and len(plan) == 1 and plan[0][0] == 'slice':
             r.incr = True
         offs = [p[1] for p in plan if p[0] in ('slice', 'new')] if all(p[0] != 'new' for p in plan) else None
@@ -1007,7 +1012,7 @@ class SArr:
         plan = self._plan(key, for_set=True)
         if any(p[0] == 'new' for p in plan):
             raise Unsupported('newaxis in assignment target')
-        old, oldnan = self.elem, self.nan
+        old, oldnan = self._snapshot()
         n_adv = [p for p in plan if p[0] in ('mask', 'fancy')]
         # the value
         vnan = None
@@ -1093,9 +1098,10 @@ class SArr:
                     dd = d if d < pos else d + (p[1].ndim - 1 if p[0] == 'mask' else 0)
                     cs.append(z3.And(q[1] <= ix[dd], ix[dd] < q[2]) if q[0] == 'slice' else ix[dd] == q[1])
                 return z3.And(*cs)
-            self.elem = lambda *ix: z3.If(full(ix), vfun(ix), old(*ix))
+            nn = None
             if vnanf is not None or oldnan is not None:
-                self.nan = lambda *ix: z3.If(full(ix), vnanf(ix) if vnanf else z3.BoolVal(False), oldnan(*ix) if oldnan else z3.BoolVal(False))
+                nn = lambda *ix: z3.If(full(ix), vnanf(ix) if vnanf else z3.BoolVal(False), oldnan(*ix) if oldnan else z3.BoolVal(False))
+            self._store(lambda *ix: z3.If(full(ix), vfun(ix), old(*ix)), nn)
             return
 
         # basic indexing
@@ -1143,19 +1149,79 @@ class SArr:
                     out.append(z3.IntVal(0) if bc[j] else z3.simplify(ix[d] - plan[d][1]))
                 return out
             velem, vn = val.elem, val.nan
-            self.elem = lambda *ix: z3.If(inregion(ix), conv(velem(*vix(ix))), old(*ix))
+            nn = None
             if vn is not None or oldnan is not None:
-                self.nan = lambda *ix: z3.If(inregion(ix), vn(*vix(ix)) if vn else z3.BoolVal(False), oldnan(*ix) if oldnan else z3.BoolVal(False))
+                nn = lambda *ix: z3.If(inregion(ix), vn(*vix(ix)) if vn else z3.BoolVal(False), oldnan(*ix) if oldnan else z3.BoolVal(False))
+            self._store(lambda *ix: z3.If(inregion(ix), conv(velem(*vix(ix))), old(*ix)), nn)
         elif isinstance(val, SNan):
-            self.elem = lambda *ix: z3.If(inregion(ix), conv(val.e), old(*ix))
-            self.nan = lambda *ix: z3.If(inregion(ix), val.isnan, oldnan(*ix) if oldnan else z3.BoolVal(False))
+            self._store(lambda *ix: z3.If(inregion(ix), conv(val.e), old(*ix)),
+                        lambda *ix: z3.If(inregion(ix), val.isnan, oldnan(*ix) if oldnan else z3.BoolVal(False)))
         elif isinstance(val, float) and val != val:
-            self.nan = lambda *ix: z3.If(inregion(ix), z3.BoolVal(True), oldnan(*ix) if oldnan else z3.BoolVal(False))
+            self._store(old, lambda *ix: z3.If(inregion(ix), z3.BoolVal(True), oldnan(*ix) if oldnan else z3.BoolVal(False)))
         else:
             v = conv(ve)
-            self.elem = lambda *ix: z3.If(inregion(ix), v, old(*ix))
-            if oldnan is not None:
-                self.nan = lambda *ix: z3.If(inregion(ix), z3.BoolVal(False), oldnan(*ix))
+            self._store(lambda *ix: z3.If(inregion(ix), v, old(*ix)),
+                        (lambda *ix: z3.If(inregion(ix), z3.BoolVal(False), oldnan(*ix))) if oldnan is not None else None)
+
+    def _store(self, newelem, newnan):
+        """install new contents; for a basic-indexing view the update is written through to the base array"""
+        if self.view_of is None or getattr(self, 'view_plan', None) is None:
+            self.elem, self.nan = newelem, newnan
+            return
+        base, plan = self.view_of, self.view_plan
+        oldb, oldbn = base.elem, base.nan
+
+        def split(bx):
+            # base index -> (condition that it lies in the view's image, corresponding view index)
+            conds, vix = [], []
+            bi = 0
+            for p in plan:
+                if p[0] == 'new':
+                    vix.append(z3.IntVal(0))
+                elif p[0] == 'slice':
+                    b = bx[bi]
+                    bi += 1
+                    if not (concrete(p[1]) == 0 and _eq(p[2], base.shape_e[bi - 1])):
+                        conds.append(z3.And(p[1] <= b, b < p[2]))
+                    vix.append(b if concrete(p[1]) == 0 else z3.simplify(b - p[1]))
+                else:
+                    b = bx[bi]
+                    bi += 1
+                    conds.append(b == p[1])
+            return (z3.And(*conds) if conds else z3.BoolVal(True)), vix
+
+        def belem(*bx):
+            cnd, vix = split(bx)
+            return newelem(*vix) if z3.is_true(cnd) else z3.If(cnd, newelem(*vix), oldb(*bx))
+        bnan = None
+        if newnan is not None or oldbn is not None:
+            def bnan(*bx):
+                cnd, vix = split(bx)
+                return z3.If(cnd, newnan(*vix) if newnan is not None else z3.BoolVal(False), oldbn(*bx) if oldbn is not None else z3.BoolVal(False))
+        base._store(belem, bnan)
+
+    def _snapshot(self):
+        """current contents as closures that do not change when the array is written afterwards"""
+        if self.view_of is None or getattr(self, 'view_plan', None) is None:
+            return self.elem, self.nan
+        e, n = self.elem, self.nan
+        # a view's closures dereference the base dynamically: freeze the base first
+        be, bn = self.view_of._snapshot()
+        plan = self.view_plan
+
+        def srcix(ix):
+            ix = list(ix)
+            out = []
+            for p in plan:
+                if p[0] == 'new':
+                    ix.pop(0)
+                elif p[0] == 'slice':
+                    i = ix.pop(0)
+                    out.append(i if concrete(p[1]) == 0 else i + p[1])
+                else:
+                    out.append(p[1])
+            return out
+        return (lambda *ix: be(*srcix(ix))), (None if bn is None else (lambda *ix: bn(*srcix(ix))))
 
     # -- reductions and methods (delegated to the numpy shim so that the assumed contract lives in one place)
     def sum(self, axis=None):
@@ -1204,7 +1270,7 @@ class SArr:
         from . import npshim
         self._write_check()
         r = npshim.sort(self)
-        self.elem, self.nan = r.elem, r.nan
+        self._store(r.elem, r.nan)
         self.sorted_from = r.sorted_from
 
 
